@@ -368,7 +368,8 @@ def mut_operator_type(F, S, rng, U):
 
 def mut_operand_order(F, S, rng, U):
     def pairs(n):
-        if n._ufl_is_terminal_ or isinstance(n, BaseFormOperator):
+        # (BesselFunction(nu, f) calls float(nu): with an expression there UFL recurses without end)
+        if n._ufl_is_terminal_ or isinstance(n, (BaseFormOperator, C.BesselFunction)):
             return []
         ops = n.ufl_operands
         out = []
